@@ -87,6 +87,8 @@ int coop_threads_alive(void) {
     for (int i = 0; i < G.nt; ++i) if (G.t[i].state != ST_FREE && G.t[i].state != ST_FINISHED) ++n;
     return n;
 }
+/* managed threads created by the library (the writer thread), not finished */
+int coop_library_threads_alive(void) { int n = 0; if (!G.on) return 0; for (int i = 0; i < G.nt; ++i) if (!G.t[i].is_app && G.t[i].state != ST_FREE && G.t[i].state != ST_FINISHED) ++n; return n; }
 
 int coop_held(const void **out, int max) {
     if (!G.on || self_id < 0) return 0;
